@@ -90,7 +90,7 @@ static void hostile_handshake(void)
 	nap(5);
 	if (split < wlen) send(fd, wire + split, wlen - split, MSG_NOSIGNAL);
 	nap(5);
-	if (after == 2) { int i; memset(hb, 0x41, 4096); for (i = 0; i < 3; i++) { send(fd, hb, 4096, MSG_NOSIGNAL); nap(5); } }
+	if (after == 2) { int i; memset(hb, 0x41, 4096); for (i = 0; i < 6; i++) { send(fd, hb, 4096, MSG_NOSIGNAL); nap(5); }   /* 24 KiB: more than any buffer of the handshake code */ }
 	if (after == 1) nap(3000);
 	control_round_trip("while the hostile peer is connected");
 	close(fd);
